@@ -11,7 +11,7 @@ from symnp.core import SVal, SInt, SFloat, SBool, ite, sand
 from symnp.arr import SArr, _raw, _unlazy
 from harness.common import PathOut, ev
 from harness import cluster
-from harness.cluster import Metric, sel, gmin, conj, cells, scale_of, concrete_metric, run_oracle
+from harness.cluster import order_preserved, UNFAITHFUL, Metric, sel, gmin, conj, cells, scale_of, concrete_metric, run_oracle
 
 META = {
     'files': ['enspara/cluster/util.py', 'enspara/ra/ra.py'],
@@ -84,6 +84,8 @@ def assign_job(N, K, xyz=False, entry='function'):
             T = M.table(model)
             sc = scale_of([x for row in T for x in row])
             metric, Mx = concrete_metric(T, sc)
+            if not order_preserved(T, Mx):
+                return dict(UNFAITHFUL, inputs={'D': [[float(x) for x in row] for row in T]})
             cc = [int(ev(model, v)) for v in cs]
             out = {'inputs': {'N': N, 'K': K, 'xyz': xyz, 'entry': entry, 'centers': cc,
                               'D': [[float(x) for x in row] for row in T]}}
